@@ -348,6 +348,7 @@ def verify_bisector(run):
 
 
 def build(run):
+    run.not_demanded = tuple(NOT_DEMANDED)
     run.assume("A-REAL", "A-NP", "A-PY", "A-SHAPE")
     plan = [("defuzzifier.Centroid.defuzzify", verify_centroid), ("defuzzifier.*OfMaximum.defuzzify", verify_maxima), ("defuzzifier.Bisector.defuzzify", verify_bisector)]
     for fq, f in plan:
